@@ -5,6 +5,7 @@ import (
 	"encoding/json"
 	"fmt"
 	"math/big"
+	"strings"
 
 	onsact "github.com/Oneledger/protocol/action/ons"
 	"github.com/Oneledger/protocol/data/ons"
@@ -259,6 +260,8 @@ func (o *ONS) directed(c *Ctx) (out []hist.TxSpec) {
 	if once(3, changeable(c, a) && a.Beneficiary == us[5].Addr.String()) {
 		add(onsSend(c, us[4], alpha, OLT(3), "send OLT to a name"))
 		add(onsDeleteSub(c, us[0], salpha, "owner deletes a sub-domain"))
+		// listed at a price nobody pays: the name will expire while it is on sale
+		add(onsSell(c, us[0], alpha, OLT(900000), false, "owner lists the short-lived name (it expires while listed)"))
 	}
 	if once(4, a != nil && version == a.Expire) {
 		forced(onsPurchase(c, us[3], us[3], alpha, priceFor(c, 5), "purchase in the last block before expiry (must fail)"))
@@ -267,6 +270,8 @@ func (o *ONS) directed(c *Ctx) (out []hist.TxSpec) {
 		base, _ := ONSOptions(c)
 		add(onsRenew(c, us[0], alpha, blocksFee(c, 20), "renew an expired name (must fail)"))
 		add(onsPurchase(c, us[3], us[3], alpha, base.String(), "purchase an expired name at the base price"))
+		// in the same block, after the purchase: somebody offers the previous owner's stale asking price
+		add(onsPurchase(c, us[2], us[2], alpha, OLT(900000), "offer the previous owner's asking price for a name that was just bought (must fail)"))
 		o.names = append(o.names, alpha)
 	}
 	// --- track beta
@@ -477,6 +482,18 @@ func (o *ONS) Plan(c *Ctx) []hist.TxSpec {
 		o.track = [12]int{0, 0, 1, 1, 3, 1, 2, 2, 2, 2, 2, 2}
 	}
 	out := o.directed(c)
+	// while a passed proposal waits for its finalisation (which may change the ONS prices at the end of a
+	// block), the traded name is renewed: the renewal is priced with the options in force, not the coming ones
+	for k := range c.S {
+		if strings.HasPrefix(k, "propPassed") {
+			if b := FindDomain(c.S, o.beta()); changeable(c, b) && !b.OnSale {
+				if owner := userByAddr(c, b.Owner); owner != nil {
+					out = append(out, onsRenew(c, owner, o.beta(), blocksFee(c, 20), "renew for 20 blocks while a passed proposal awaits finalisation"))
+				}
+			}
+			break
+		}
+	}
 	// random traffic once the traded name went through its directed life (or
 	// that got stuck); the short-lived name joins after its directed re-purchase
 	if o.done[11] || o.n > 16 {
